@@ -13,8 +13,8 @@ reported an error: truncated or malformed XML), and one *handler program* per in
 list of `read` / `write tokens` steps and a return value.  A handler ignores the errors of its
 reads (the worst case: a handler that returns the error ends the session anyway).
 
-Not modelled (assumptions of the theorems, listed in meta/C07.json and meta/C08.json): the
-WebSocket framing flag (`ws = false`).  Modelled in separate entry points further down: pending
+The WebSocket framing flag is modelled as a relabelling of the input (`wsInput`).  Modelled in
+separate entry points further down: pending
 correlated requests (`serveP`), a closed / broken output and the close deadline (`serveC`), a
 connection that refuses writes (`serveW`).
 -/
@@ -119,9 +119,39 @@ def closes : Nat → List Tok → Bool
   | d + 1, .stop _ :: ts => closes d ts
   | d, _ :: ts => closes d ts
 
+/-- namespace of the WebSocket framing elements `<open/>` and `<close/>` (RFC 7395) -/
+def nsFraming : String := "urn:ietf:params:xml:ns:xmpp-framing"
+
+/-- local name (in the stream namespace) that stands for the `<close/>` framing element of a
+session that uses the WebSocket subprotocol, see `wsInput`.  It contains a space, so no XML
+decoder can produce it: on the tokens of a real input the arm of `verdict` that tests it is
+dead unless `wsInput true` put it there. -/
+def wsCloseMark : String := "ws close"
+
+/-- The framing check of `reader.Token` (`r.ws && t.Name.Space == wsNamespace && !r.negotiating`,
+the first thing it does with a start tag): on a session that uses the WebSocket subprotocol
+(`ws = true`) a start tag in the framing namespace named `close` is the peer's closing element
+(`io.EOF`), any other one (`<open/>` = a stream restart) is `ErrUnexpectedRestart`, at any depth,
+with the depth counted up like for every start tag.  The model represents that check as a
+relabelling of the session's input in front of `verdict`: `close` becomes a stream-namespace start
+tag named `wsCloseMark`, every other framing start tag becomes `<stream:stream>` (for which
+`verdict` answers exactly `ErrUnexpectedRestart` with the depth counted up).  End tags are not
+touched (the reader only tests start tags).  With `ws = false` nothing is relabelled: framing
+elements are ordinary content on a TCP stream. -/
+def wsTok (ws : Bool) : Tok → Tok
+  | .start n as =>
+    if ws && n.space == nsFraming then
+      (if n.loc == "close" then .start ⟨nsStream, wsCloseMark⟩ as
+       else .start ⟨nsStream, "stream"⟩ as)
+    else .start n as
+  | t => t
+
+/-- the input of a session as its stream reader classifies it (see `wsTok`) -/
+def wsInput (ws : Bool) (inp : List Tok) : List Tok := inp.map (wsTok ws)
+
 /-- `reader.Token` (internal/stream/reader.go) on one token at nesting `depth`, for
-`ws = false`, `negotiating = false`: new depth and verdict.  `rest` is only used to decode a
-received stream error. -/
+`negotiating = false`: new depth and verdict.  The WebSocket flag is handled by `wsInput`.
+`rest` is only used to decode a received stream error. -/
 def verdict (depth : Nat) (t : Tok) (rest : List Tok) : Nat × Rd :=
   match t with
   | .chars s => (depth, if depth == 0 && !isWs s then .err .chardata else .tok t)
@@ -135,6 +165,7 @@ def verdict (depth : Nat) (t : Tok) (rest : List Tok) : Nat × Rd :=
           | none => .err .decoder
          else .err .decoder)
       else if n.loc == "stream" then .err .restart
+      else if n.loc == wsCloseMark then .eof
       else .err .unknownElem)
   | .stop n =>
     (depth - 1,
@@ -603,6 +634,33 @@ structure Pend where
   name : Name
   deriving DecidableEq, Repr
 
+/-- how a local request that expects a response (`sendResp` behind `SendIQ`, `SendIQElement`, the
+waiting variants of `SendMessage` / `SendPresence`) stands when the input is served: it is still
+waiting, its transmission failed (the call returned the error), or the caller's context ended
+while it waited (the call returned `ctx.Err()`) -/
+inductive Fate | waiting | sendFailed | gaveUp
+  deriving DecidableEq, Repr, Inhabited
+
+structure Req where
+  id : String
+  name : Name
+  fate : Fate
+  deriving DecidableEq, Repr
+
+/-- `sendResp` as far as the `sentStanzas` table is concerned: the entry `id ↦ name` is put into
+the map *before* the request is transmitted (replacing an entry with the same id) and a deferred
+`delete(s.sentStanzas, id)` runs when the call returns — after a failed transmission, after the
+caller gave up waiting, or after the response was handed over.  Only a call that is still
+waiting has an entry. -/
+def sendRespTable (tbl : List Pend) (r : Req) : List Pend :=
+  let ins := tbl.filter (fun p => p.id != r.id) ++ [⟨r.id, r.name⟩]
+  match r.fate with
+  | .waiting => ins
+  | _ => ins.filter (fun p => p.id != r.id)
+
+/-- the table after a history of local requests, oldest first -/
+def tableOf (reqs : List Req) : List Pend := reqs.foldl sendRespTable []
+
 /-- `readerChan, ok := s.sentStanzas[id]; ok && name == start.Name || name == {Local: start.Name.Local}` -/
 def pendMatch (pend : List Pend) (id : String) (n : Name) : Option Pend :=
   match pend.find? (fun p => p.id == id) with
@@ -782,8 +840,6 @@ def serveW (cfg : Cfg) (left : Nat) (inp : List Tok) (progs : List Prog) : Out :
 
 /-! ### tokens of the regenerated verdict table (`Generated/C08.lean`) -/
 
-def nsFraming : String := "urn:ietf:params:xml:ns:xmpp-framing"
-
 /-- the token (and what follows it) a kind name of the fact table stands for -/
 def factTok : String → Option (Tok × List Tok)
   | "ws" => some (.chars " \n", [])
@@ -835,6 +891,10 @@ def Rd.name : Rd → String
 /-- the model's verdict for a kind of the fact table at a depth -/
 def factVerdict (kind : String) (depth : Nat) : Option String :=
   (factTok kind).map fun p => (verdict depth p.1 p.2).2.name
+
+/-- the same on a session with the WebSocket flag `ws` -/
+def factVerdictW (ws : Bool) (kind : String) (depth : Nat) : Option String :=
+  (factTok kind).map fun p => (verdict depth (wsTok ws p.1) (wsInput ws p.2)).2.name
 
 /-! ### shapes of the detector probe (`Generated/C07.lean`, harness/c07 `ProbeToks`) -/
 
